@@ -1138,6 +1138,9 @@ impl<'a> Cx<'a> {
         match (mc.method.to_string().as_str(), mc.args.len()) {
             ("push", 1) | ("poke", 2) | ("discard", 1) | ("load_frame", 0) if on_vm => Some(()),
             ("close_upvalues", 1) if on_fiber => Some(()),
+            ("close_upvalues_for_frame", 0) if on_fiber => Some(()),
+            ("push_call_frame", 1) if on_fiber => Some(()),
+            ("pop", 0) if rp.replace("active_fiber_mut()", "active_fiber()") == "self.active_fiber().frames" || (self.fiber_mode && rp == "self.frames") => Some(()),
             ("push", 1) | ("truncate", 1) if vm_place(&rp).is_some() => Some(()),
             ("truncate", 1) if rp.replace("active_fiber_mut()", "active_fiber()") == "self.active_fiber().frames" || (self.fiber_mode && rp == "self.frames") => Some(()),
             _ => None,
@@ -1154,6 +1157,31 @@ impl<'a> Cx<'a> {
             if name == "close_upvalues" {
                 let n = self.expr(args[0], Some(&LT::I("usize")))?;
                 return Ok((n.pre, format!("let vm_ := Rs.Vm.closeUpvalues vm_ {};\n  ", n.term)));
+            }
+            if name == "close_upvalues_for_frame" {
+                if self.method_body_of("ObjFiber", "close_upvalues_for_frame").as_deref() != Some("{let slot_base=self.current_frame().unwrap().slot_base;self.close_upvalues(slot_base);}") {
+                    return self.un("ObjFiber::close_upvalues_for_frame is no longer `close_upvalues(current frame's slot_base)`");
+                }
+                let v = self.fresh("t");
+                return Ok((vec![Pre::Bind(v.clone(), "(Rs.Vm.closeUpvaluesForFrame vm_)".into())], format!("let vm_ := {};\n  ", v)));
+            }
+            if name == "push_call_frame" {
+                if self.method_body_of("ObjFiber", "push_call_frame").as_deref()
+                    != Some("{let(ip,arity)=(closure.function.chunk.code.as_ptr(),closure.function.arity);self.frames.push(CallFrame{closure,ip,slot_base:self.stack.len()-arity})}")
+                {
+                    return self.un(format!("ObjFiber::push_call_frame is no longer `frames.push(CallFrame {{ closure, ip: first instruction, slot_base: stack.len() - arity }})`: {:?}", self.method_body_of("ObjFiber", "push_call_frame")));
+                }
+                let c = self.expr(args[0], Some(&LT::ClosureRec))?;
+                if c.ty != LT::ClosureRec {
+                    return self.un("push_call_frame of something that is not a closure handed to the call mechanism");
+                }
+                let mut pre = c.pre;
+                let v = self.fresh("t");
+                pre.push(Pre::Bind(v.clone(), format!("(Rs.Vm.pushCallFrame vm_ {})", c.term)));
+                return Ok((pre, format!("let vm_ := {};\n  ", v)));
+            }
+            if name == "pop" && vm_place(&rp).is_none() {
+                return Ok((vec![], "let vm_ := Rs.Vm.popFrame vm_;\n  ".to_string()));
             }
             if name == "truncate" && vm_place(&rp).is_none() {
                 let n = self.expr(args[0], Some(&LT::I("usize")))?;
